@@ -1,8 +1,8 @@
 (* Driver for the C05 model (Model/StreamWrite.v).
-   case:  <blk> <shutans> [<conn>] ; ops ; beh0 | beh1 | ... ; oracle ; pollw
+   case:  <blk> <shutans> [<conn> [<ipc>]] ; ops ; beh0 | beh1 | ... ; oracle ; pollw
    conn:  "-" (opened connected) or t:<cres>:<so,so,...> / u:<cres>:<so,...> (right after
           uv_tcp_connect / uv_pipe_connect; cres = connect(2) result 0 or -errno; so = SO_ERROR answers)
-   ops:   W<lens> T<lens> S C R     lens: comma separated, "a*k" = k buffers of length a
+   ops:   W<lens> T<lens> S C R V<lens> (uv_write2 with the send handle) X (close the send handle)     lens: comma separated, "a*k" = k buffers of length a
    oracle: n<k> (write returned k)  e<errno> (write failed)
    prints the canonical trace (see harness/c05_stream.c). *)
 let parse_lens (s : string) : n list =
@@ -20,6 +20,8 @@ let parse_op (tok : string) : op =
   | 'S' -> OShutdown
   | 'C' -> OClose
   | 'R' -> ORun
+  | 'V' -> OWrite2 (parse_lens arg)
+  | 'X' -> OCloseSend
   | _ -> failwith ("bad op " ^ tok)
 
 let parse_answer (tok : string) : answer =
@@ -32,15 +34,19 @@ let parse_answer (tok : string) : answer =
 let case (line : string) : string =
   match String.split_on_char ';' line with
   | [hd; ops; behs; orc; pw] ->
+      let cres_of (t : string) : positive option =      (* connect(2): 0 or -errno *)
+        let v = BZ.of_string t in
+        if BZ.sign v = 0 then None else Some (pos_of_bz (BZ.abs v)) in
       let parse_conn c =
         if c = "-" then None else
         match String.split_on_char ':' c with
-        | [k; cres; so] -> Some ((k = "t", z_of_string cres), List.map z_of_string (split_on ',' so))
-        | [k; cres] -> Some ((k = "t", z_of_string cres), [])
+        | [k; cres; so] -> Some ((k = "t", cres_of cres), List.map z_of_string (split_on ',' so))
+        | [k; cres] -> Some ((k = "t", cres_of cres), [])
         | _ -> failwith "bad conn" in
-      let blk, sa, conn = match split_on ' ' hd with
-        | [b; a] -> (b = "1", z_of_string a, None)
-        | [b; a; c] -> (b = "1", z_of_string a, parse_conn c)
+      let blk, sa, conn, ipc = match split_on ' ' hd with
+        | [b; a] -> (b = "1", z_of_string a, None, false)
+        | [b; a; c] -> (b = "1", z_of_string a, parse_conn c, false)
+        | [b; a; c; i] -> (b = "1", z_of_string a, parse_conn c, i = "1")
         | _ -> failwith "bad header" in
       let ops = List.map parse_op (split_on ' ' ops) in
       let beha = Array.of_list (List.map (fun b -> List.map parse_op (split_on ' ' b))
@@ -48,10 +54,12 @@ let case (line : string) : string =
       let beh k = let k = int_of_nat k in if k < Array.length beha then beha.(k) else [] in
       let o = List.map parse_answer (split_on ' ' orc) in
       let pw = List.map (fun t -> t <> "0") (split_on ' ' pw) in
-      let s = exec beh (init blk o sa pw conn) ops in
+      let s = exec beh (init blk o sa pw conn ipc) ops in
       let buf = Buffer.create 1024 in
       let add = Buffer.add_string buf in
       let total = ref BZ.zero in
+      let fds = Hashtbl.create 8 in
+      let fd_pending = ref (-1) in     (* an EFd whose chunk follows *)
       List.iter (fun e ->
         match e with
         | EWrite (id, t) -> add (Printf.sprintf "w%d,%s " (int_of_nat id) (string_of_n t))
@@ -59,6 +67,10 @@ let case (line : string) : string =
         | ETry (id, t) -> add (Printf.sprintf "t%d,%s " (int_of_nat id) (string_of_n t))
         | ETryRet (id, c) -> add (Printf.sprintf "u%d:%s " (int_of_nat id) (string_of_z c))
         | EChunk (id, off, len) ->
+            (* the kernel hands a descriptor over only with at least one byte of a stream *)
+            if !fd_pending = int_of_nat id && len <> N0 then
+              Hashtbl.replace fds !fd_pending (1 + (try Hashtbl.find fds !fd_pending with Not_found -> 0));
+            fd_pending := -1;
             if len <> N0 then begin
               total := BZ.add !total (bz_of_n len);
               add (Printf.sprintf "c%d,%s,%s " (int_of_nat id) (string_of_n off) (string_of_n len))
@@ -69,8 +81,17 @@ let case (line : string) : string =
         | EShutCb c -> add (Printf.sprintf "B:%s " (string_of_z c))
         | ECloseCb -> add "x "
         | EQ q -> add (Printf.sprintf "q%s " (string_of_n q))
-        | EConnCb c -> add (Printf.sprintf "k:%s " (string_of_z c))) (trace s);
+        | EConnCb c -> add (Printf.sprintf "k:%s " (string_of_z c))
+        | EWrite2 id -> add (Printf.sprintf "m%d " (int_of_nat id))
+        | EFd id ->
+            let i = int_of_nat id in
+            fd_pending := i;
+            add (Printf.sprintf "f%d " i)
+        | EFdFail id -> add (Printf.sprintf "g%d " (int_of_nat id))) (trace s);
       add (Printf.sprintf "e%s,%d,1" (BZ.to_string !total) (if s.shut || not s.fdopen then 1 else 0));
+      (* descriptors the peer receives, per request: one per accepted sendmsg that carried one *)
+      List.iter (fun (i, k) -> add (Printf.sprintf " p%d:%d" i k))
+        (List.sort compare (Hashtbl.fold (fun i k l -> (i, k) :: l) fds []));
       Buffer.contents buf
   | _ -> failwith "bad case"
 
